@@ -127,6 +127,15 @@ CHECKS = {
    note='PARTIAL as named: torch autograd itself is modelled (detached sub-expressions are constants of the differentiated map) and validated against real Jacobians, not verified; orthogonality of the rotation matrix is not proved (only that it maps u_hat to q_hat and is linear).',
    technique='Coq proof (reals, vector algebra, Coquelicot derivatives) + regenerated guards / pinned detach sites + Jacobian correspondence evaluated in Coq over Q',
    ref='DESIGN.md section 4 C07'),
+ 'C17': dict(
+   text='Theorems (Coq, reals): the commitment term enters the loss only under the regenerated training guard (zero in evaluation mode); mse is non-negative, symmetric, zero iff equal; SimVQ loss = commitment_weight (1 + w) mse; '
+        'clamped entropy of a distribution: non-negative, at most ln K (Gibbs, unclamped region), 0 for a one-hot and ln K for the uniform distribution; the entropy term -p ln p is midpoint-concave and hence mean per-token entropy <= entropy of the mean for two tokens (partial Jensen); '
+        'orthogonality penalty of n identical unit codes = 1 - 1/n. '
+        'Tie: commitment guard and the whole loss assembly (VectorQuantize, SimVQ, LFQ, LatentQuantize) regenerated and pinned; reported losses and breakdown tuples compared with the documented formulas recomputed independently (float64) from inputs, selected codes, codebook, weights, temperatures and (per-sample) masks; '
+        'mse terms evaluated in Coq over Q, small LFQ entropy cases certified by the interval tactic, entropy inequalities checked on every LFQ call, every term zero in evaluation mode.',
+   note='PARTIAL: the m-token Jensen inequality for the clamped entropy is stated (C17_entropy_chain_full_statement, not asserted) and only its two-token unclamped case is proved. Known finding: SimVQ / ResidualSimVQ report a non-zero loss in eval().',
+   technique='Coq proof (reals: Gibbs inequality, concavity) + regenerated guard / pinned loss assembly + independent recomputation with Coq (Q) and interval-certified cases',
+   ref='DESIGN.md section 4 C17'),
  'C12': dict(
    text='Theorems (Coq, axiom-free, all n, cutoff, multiple_of, draws r): the layers that run are exactly the prefix {0..k-1} with k = min(n, round_up(r+1, m)); cutoff < k <= n; m | k or k = n; '
         'dropped layers form a suffix; every admissible k is produced by some in-contract draw; dropout is off when not training / indices supplied / dropout disabled / one layer. '
